@@ -59,10 +59,14 @@ CORPUS = os.path.join(core.VERIF, "corpus", "C15")
 
 RULE = ("structures: 1-8 atoms on distinct sites of an 8x8x8 fractional grid (+ offsets: inside / outside by whole cells / "
         "exactly on the boundary / within 1e-4 of it / decimal-grid / generic), cells none | orthorhombic | power-of-two "
-        "orthorhombic (exact float arithmetic) | lower-triangular triclinic (both signs) | arbitrarily oriented (fractional "
-        "output only), every term kind, extra columns on any subset of {atom, bond, angle, dihedral}, duplicate elements "
+        "orthorhombic (exact float arithmetic) | lower-triangular triclinic (both signs) | ALMOST orthorhombic (standard "
+        "orientation, every angle within a few units of the printed precision 1e-4 degree of 90, or log-uniform 1e-3..0.5 degree "
+        "off) | arbitrarily oriented (fractional output only) | orthorhombic-SHAPED but not axis-aligned: mutually perpendicular "
+        "vectors with exactly zero dot products, axes permuted / rotated by a Pythagorean angle about one axis / rotated by a "
+        "rational 3-D rotation, either handedness (fractional output only), every term kind, extra columns on any subset of {atom, bond, angle, dihedral}, duplicate elements "
         "across types, dyadic and generic charges, fractional and Cartesian output; hand-written CIF texts with s.u. "
-        "parentheses, Cartesian tags, both tag families, P1 / non-P1 / missing H-M items; random strings for the s.u. "
+        "parentheses, Cartesian tags, both tag families, P1 / non-P1 / missing H-M items, cells orthorhombic | triclinic | almost "
+        "orthorhombic (angles with 4 decimals within 1e-3 degree of 90); random strings for the s.u. "
         "stripper (hand-written files also carry a charge column with s.u.); atom indices of terms also in python's negative "
         "spelling; extra values from everything PyCifRW must quote or fold; left-handed and negative-diagonal cells (fractional "
         "output); charges up to 1e300 / down to 1e-300 / float32-valued, and nan, inf, -0.0 (oracle only); HISTORIES: one live object saved 2-5 times with its cell changed between saves (in-place row assignment, "
@@ -102,6 +106,10 @@ def gen_cell(rng, kind):
         return m
     if kind == "ortho":
         return [[a, 0, 0], [0, b, 0], [0, 0, c]]
+    if kind == "near90":
+        return gen_cell_near90(rng, a, b, c)
+    if kind == "rotortho":
+        return gen_cell_rotortho(rng)
     if kind in ("tri+", "tri-", "tri"):
         s = {"tri+": [1], "tri-": [-1], "tri": [1, -1]}[kind]
         t = lambda: rng.choice(s) * Fraction(rng.randint(1, 3 * 8), 8)
@@ -112,6 +120,70 @@ def gen_cell(rng, kind):
          [Fraction(rng.randint(-8, 8), 8), Fraction(rng.randint(-8, 8), 8), c]]
     rng.shuffle(m)
     if m[0][1] == 0 and m[0][2] == 0 and m[1][2] == 0 and m[0][0] > 0 and m[1][1] > 0 and m[2][2] > 0:
+        m[0], m[1] = m[1], m[0]
+    return m
+
+
+ANGLE_UNIT = Fraction(1, 10000)          # the printed precision of the cell angles (degrees)
+
+
+def near90_deviations(rng):
+    """three deviations (degrees, Fractions) of the cell angles from 90: either ALL a few units of the printed precision
+    (0.3 .. 9.5 x 1e-4 degree, either sign, some exactly 0 but not all), or all log-uniform in 1e-3 .. 0.5 degree"""
+    if rng.random() < 0.6:
+        d = [rng.choice([1, -1]) * Fraction(rng.randint(30, 950), 100) * ANGLE_UNIT if rng.random() < 0.75 else F(0) for _ in range(3)]
+        if not any(d):
+            d[rng.randrange(3)] = rng.choice([1, -1]) * Fraction(rng.randint(100, 950), 100) * ANGLE_UNIT
+        return d
+    return [rng.choice([1, -1]) * F(round(10 ** rng.uniform(-3, -0.3), 6)).limit_denominator(10 ** 6) for _ in range(3)]
+
+
+def gen_cell_near90(rng, a, b, c):
+    """ALMOST orthorhombic: a lower-triangular cell (standard orientation, positive diagonal) whose three angles
+    deviate from 90 degrees by `near90_deviations`; the shears are dyadic (multiples of 2^-26)."""
+    dal, dbe, dga = near90_deviations(rng)
+    dy = lambda x: Fraction(round(x * 2 ** 26), 2 ** 26)
+    rad = math.pi / 180.0
+    # cos(90 - d) = sin(d): row1 = (b cos gamma, ~b, 0), row2 = (c cos beta, ~c cos alpha, ~c)
+    t1 = dy(float(b) * math.sin(float(-dga) * rad))
+    t2 = dy(float(c) * math.sin(float(-dbe) * rad))
+    t3 = dy(float(c) * math.sin(float(-dal) * rad))
+    return [[a, 0, 0], [t1, b, 0], [t2, t3, c]]
+
+
+# integer matrices with mutually perpendicular rows of equal length (rows, length)
+INT_ORTHO = [([[1, 2, 2], [2, 1, -2], [2, -2, 1]], 3), ([[2, 3, 6], [3, -6, 2], [6, 2, -3]], 7),
+             ([[1, 4, 8], [4, 7, -4], [8, -4, 1]], 9), ([[2, 6, 9], [6, 7, -6], [9, -6, 2]], 11)]
+PYTHAGOREAN = [(3, 4, 5), (4, 3, 5), (5, 12, 13), (12, 5, 13), (8, 15, 17), (15, 8, 17), (7, 24, 25), (20, 21, 29)]
+
+
+def gen_cell_rotortho(rng):
+    """an ORTHORHOMBIC-SHAPED cell that is not aligned with x, y, z: three mutually perpendicular lattice vectors (dot
+    products exactly 0 in float arithmetic: every entry is a small integer times an eighth), lengths 6..14, matrix not
+    diagonal.  Sub-families: the axes permuted (with signs) | rotated about one axis by a Pythagorean angle | a rational
+    rotation in 3-D; then optionally the rows permuted / negated (left- and right-handed)."""
+    ln = lambda h: Fraction(rng.randint(-(-48 // h), 112 // h), 8)         # factor p with 6 <= p*h <= 14
+    fam = rng.choice(["perm", "plane", "plane", "space"])
+    if fam == "perm":
+        d = [Fraction(rng.randint(6 * 8, 14 * 8), 8) for _ in range(3)]
+        perm = rng.choice([[1, 0, 2], [0, 2, 1], [2, 1, 0], [1, 2, 0], [2, 0, 1]])
+        m = [[d[i] if k == perm[i] else F(0) for k in range(3)] for i in range(3)]
+    elif fam == "plane":
+        x, y, h = rng.choice(PYTHAGOREAN)
+        ax = rng.randrange(3)
+        i, j = [k for k in range(3) if k != ax]
+        p, q_ = ln(h), ln(h)
+        m = [[F(0)] * 3 for _ in range(3)]
+        m[i][i], m[i][j] = p * x, p * y
+        m[j][i], m[j][j] = -q_ * y, q_ * x
+        m[ax][ax] = Fraction(rng.randint(6 * 8, 14 * 8), 8)
+    else:
+        rows, h = rng.choice(INT_ORTHO)
+        m = [[p * v for v in r] for p, r in zip([ln(h) for _ in range(3)], rows)]
+    if rng.random() < 0.5:
+        rng.shuffle(m)
+    m = [[-v for v in r] if rng.random() < 0.25 else r for r in m]
+    if all(m[i][k] == 0 for i in range(3) for k in range(3) if i != k):         # (cannot happen for plane / space)
         m[0], m[1] = m[1], m[0]
     return m
 
@@ -425,6 +497,19 @@ def is_standard_orientation(cellj):
     return c[0][1] == 0 and c[0][2] == 0 and c[1][2] == 0 and c[0][0] > 0 and c[1][1] > 0 and c[2][2] > 0
 
 
+LEN_RTOL = 1e-9                 # cell lengths: printed in full
+ANGLE_TOL = 0.5e-4 + 1e-7       # cell angles (degrees): printed with 4 decimals
+ASE_TOL = 1e-6                  # agreement with the independent reader on the same file (Angstrom)
+
+
+def _all_finite(arr):
+    import numpy as np
+    try:
+        return bool(np.isfinite(np.asarray(arr, dtype=float)).all())
+    except (TypeError, ValueError):
+        return False
+
+
 def oracle_roundtrip(aj, fract, with_ase=True, obj=None):
     """The property on one structure and one output mode. Returns (list of (what, tag-or-None), info dict).
     Everything is recomputed from the canonical dump `aj` and from what the REAL code wrote / returned.
@@ -447,6 +532,13 @@ def oracle_roundtrip(aj, fract, with_ase=True, obj=None):
         tag = T_RES if rv and "StarError" in type(e).__name__ else None
         return [("load_p1_cif of the written file raised %s: %s%s" % (type(e).__name__, str(e)[:200],
                  " (extra values %r)" % rv[:3] if tag else ""), tag)], info
+    # every number of the structure read back must be a number (the canonical dump is exact-rational: nan / inf cannot
+    # be written down; the charges nan / inf have their own op and never come through here)
+    nonfinite = [name for name, arr in (("positions", b.positions), ("cell", b.cell), ("charges", b.charges))
+                 if arr is not None and not _all_finite(arr)]
+    if nonfinite:
+        return [("the structure read back from the written file has non-finite %s (coordinate columns written: %s)" % (
+            " and ".join(nonfinite), [l for l in w1.split("\n") if "nan" in l.lower() or "inf" in l.lower()][:3]), None)], info
     bj = core.canon_atoms(b)
     info["b"] = bj
     has_cell = aj["cell"] is not None
@@ -466,14 +558,15 @@ def oracle_roundtrip(aj, fract, with_ase=True, obj=None):
         c0 = [[fl(v) for v in row] for row in aj["cell"]]
         c1 = [[fl(v) for v in row] for row in bj["cell"]]
         p0, p1 = cellpar(c0), cellpar(c1)
-        for name, x, y in zip("a b c alpha beta gamma".split(), p0, p1):
-            if abs(x - y) > 1e-4 * max(abs(x), 1.0):
+        # to the printed precision: lengths are printed in full (17 significant digits), angles with 4 decimals
+        for k, (name, x, y) in enumerate(zip("a b c alpha beta gamma".split(), p0, p1)):
+            if not abs(x - y) <= (LEN_RTOL * abs(x) if k < 3 else ANGLE_TOL):
                 bad.append(("cell %s changed: %r -> %r" % (name, x, y), None))
         # --- fractional coordinates modulo 1 to the printed precision
         f0, f1 = frac_of(c0, pos0), frac_of(c1, pos1)
         tol = 0.5e-4 + 1e-6 if frac_mode else 1e-4
         worst = max(mod1_dist(f0[i][k], f1[i][k]) for i in range(n) for k in range(3))
-        if worst > tol:
+        if not worst <= tol:
             tag = None
             if not frac_mode and not is_standard_orientation(aj["cell"]):
                 # attributed to the re-orientation only if the Cartesian numbers themselves came back unchanged
@@ -604,7 +697,7 @@ def oracle_roundtrip(aj, fract, with_ase=True, obj=None):
         else:
             rc = [[float(v) for v in row] for row in r.cell[:]]
             c1 = [[fl(v) for v in row] for row in bj["cell"]]
-            if max(abs(rc[i][k] - c1[i][k]) for i in range(3) for k in range(3)) > 1e-3:
+            if not max(abs(rc[i][k] - c1[i][k]) for i in range(3) for k in range(3)) <= ASE_TOL:
                 bad.append(("cell differs from ase.io.read: %s vs %s" % (c1, rc), None))
             elif list(r.get_chemical_symbols()) != elements_of(bj):
                 bad.append(("elements differ from ase.io.read: %s vs %s" % (elements_of(bj), list(r.get_chemical_symbols())), None))
@@ -615,13 +708,13 @@ def oracle_roundtrip(aj, fract, with_ase=True, obj=None):
                 d = fa - fb
                 d -= np.round(d)                                  # ASE wraps Cartesian files too: compare modulo the lattice
                 cart = np.abs(d.dot(np.array(c1)))
-                if cart.max() > 1e-3:
+                if not cart.max() <= ASE_TOL:
                     bad.append(("positions differ from ase.io.read (modulo lattice) by %.3g" % cart.max(), None))
                 # well inside the cell both readers must give the very same Cartesian numbers
                 if frac_mode:
                     inside = [i for i in range(n) if all(0.001 < fb[i][k] < 0.999 for k in range(3))]
                     for i in inside:
-                        if max(abs(rp[i][k] - pos1[i][k]) for k in range(3)) > 1e-3:
+                        if not max(abs(rp[i][k] - pos1[i][k]) for k in range(3)) <= ASE_TOL:
                             bad.append(("position of atom %d differs from ase.io.read: %s vs %s" % (i, pos1[i], rp[i]), None))
                             break
     return bad, info
@@ -657,9 +750,14 @@ def gen_handwritten(rng):
         if v >= 0 and rng.random() < 0.2:
             t = "+" + t
         return t
-    cellkind = rng.choice(["ortho", "tri"])
+    cellkind = rng.choice(["ortho", "tri", "near90"])
     a, b, c = [round(rng.uniform(6, 14), 3) for _ in range(3)]
-    al, be, ga = (90.0, 90.0, 90.0) if cellkind == "ortho" else tuple(round(rng.uniform(70, 110), 2) for _ in range(3))
+    adec = 2                                                 # decimals of the angles in the file
+    if cellkind == "near90":                                 # almost orthorhombic: see near90_deviations
+        al, be, ga = [round(90.0 + float(d), 4) for d in near90_deviations(rng)]
+        adec = 4
+    else:
+        al, be, ga = (90.0, 90.0, 90.0) if cellkind == "ortho" else tuple(round(rng.uniform(70, 110), 2) for _ in range(3))
     su = lambda: "(%d)" % rng.randint(1, 99) if rng.random() < 0.6 else ""
     n = rng.randint(1, 5)
     sites = rng.sample(range(512), n)
@@ -673,7 +771,7 @@ def gen_handwritten(rng):
     lines = ["data_hand", ""]
     if hm is not None:
         lines.append("_symmetry_space_group_name_H-M  %s" % hm)
-    cellstr = [num(a, 3) + su(), num(b, 3) + su(), num(c, 3) + su(), num(al, 2) + su(), num(be, 2) + su(), num(ga, 2) + su()]
+    cellstr = [num(a, 3) + su(), num(b, 3) + su(), num(c, 3) + su(), num(al, adec) + su(), num(be, adec) + su(), num(ga, adec) + su()]
     for t, v in zip(["_cell_length_a", "_cell_length_b", "_cell_length_c", "_cell_angle_alpha", "_cell_angle_beta", "_cell_angle_gamma"], cellstr):
         lines.append("%s  %s" % (t, v))
     lines += ["loop_", "_atom_site_label", "_atom_site_type_symbol"]
@@ -719,7 +817,7 @@ def gen_handwritten(rng):
            "charges": [strip(v) for v in qs] if with_q else [0.0] * n,
            "cartn": [[strip(v) for v in r] for r in rows_c] if rows_c else None,
            "fract": [[strip(v) for v in r] for r in rows_f] if rows_f else None}
-    return {"op": "handwritten", "kind": kind, "style": style, "text": text, "expect": exp}
+    return {"op": "handwritten", "kind": kind, "style": style, "cell": cellkind, "text": text, "expect": exp}
 
 
 def oracle_handwritten(inp, with_ase=True):
@@ -736,7 +834,7 @@ def oracle_handwritten(inp, with_ase=True):
     if c1 is None:
         return [("cell items present but no cell read", None)], bj
     for name, x, y in zip("a b c alpha beta gamma".split(), exp["cellpar"], cellpar(c1)):
-        if abs(x - y) > 1e-6 * max(abs(x), 1.0):
+        if not abs(x - y) <= 1e-8 * max(abs(x), 1.0):
             bad.append(("cell %s read as %r, file says %r (s.u. removed)" % (name, y, x), None))
     pos1 = [[fl(v) for v in r["pos"]] for r in bj["atoms"]]
     n = len(pos1)
@@ -761,12 +859,12 @@ def oracle_handwritten(inp, with_ase=True):
         if e is None:      # ASE is only the independent witness: a file it cannot read says nothing about mofun
             import numpy as np
             rc = [[float(v) for v in row] for row in r.cell[:]]
-            if max(abs(rc[i][k] - c1[i][k]) for i in range(3) for k in range(3)) > 1e-3:
-                bad.append(("cell differs from ase.io.read", None))
+            if not max(abs(rc[i][k] - c1[i][k]) for i in range(3) for k in range(3)) <= ASE_TOL:
+                bad.append(("cell differs from ase.io.read: %s vs %s" % (c1, rc), None))
             elif len(r) == n and exp["cartn"] is None:
                 d = frac_of(c1, [[float(v) for v in p] for p in r.positions]) - frac_of(c1, pos1)
                 d -= np.round(d)
-                if np.abs(d.dot(np.array(c1))).max() > 1e-3:
+                if not np.abs(d.dot(np.array(c1))).max() <= ASE_TOL:
                     bad.append(("positions differ from ase.io.read (modulo lattice)", None))
     return bad, bj
 
@@ -895,22 +993,25 @@ def real_strip(s):
 
 # ------------------------------------------------------------------ streams
 
+NONSTANDARD = ("rot", "lh", "negdiag", "rotortho")     # cell kinds not in the standard orientation: fractional output only
+
+
 def default_cases(ctx):
     rng = ctx.rng
     out = []
-    kinds = ["ortho", "ortho2", "tri+", "tri-", "tri", "rot", "lh", "negdiag", "none"]
+    kinds = ["ortho", "ortho2", "tri+", "tri-", "tri", "rot", "lh", "negdiag", "none", "near90", "rotortho"]
     placements = ["inside", "outside", "boundary", "near", "mixed", "decimal", "grid", "generic"]
     # a systematic sweep first: every cell kind x placement x output mode
     for ck in kinds:
         for pl in placements:
             for fract in (True, False):
-                if ck in ("rot", "lh", "negdiag") and not fract:
+                if ck in NONSTANDARD and not fract:
                     continue                      # known-finding stream (T_ROT), see known_cases
                 aj, _ = gen_structure(rng, cellkind=ck, placement=pl)
                 out.append({"op": "roundtrip", "a": aj, "fract": fract, "stream": "default", "cellkind": ck, "placement": pl})
     for s in range(ctx.n(60, 1500)):
         ck = rng.choice(kinds)
-        fract = rng.random() < 0.65 or ck in ("rot", "lh", "negdiag")
+        fract = rng.random() < 0.65 or ck in NONSTANDARD
         pl = rng.choice(placements)
         aj, _ = gen_structure(rng, cellkind=ck, placement=pl)
         out.append({"op": "roundtrip", "a": aj, "fract": fract, "stream": "default", "cellkind": ck, "placement": pl})
@@ -1178,6 +1279,8 @@ def judge_state(ctx, inp, aj, fract, ops, pending, oracle_only, obj=None, where=
     pending.append(("cif_save", {"ok": canon_block(block)}, exact_arith(aj) or not (fract and aj["cell"] is not None)))
     # tie 2: what the code read from that file against the model's loadCif on that block
     b, e = attempt(lambda: read(w1))
+    if e is None and not (_all_finite(b.positions) and (b.cell is None or _all_finite(b.cell)) and _all_finite(b.charges)):
+        return                 # nan / inf cannot cross the line protocol; the oracle has reported it
     impl = {"ok": core.canon_atoms(b)} if e is None else {"err": load_err(e)}
     ops.append({"op": "cif_load", "block": block, "cell": impl["ok"]["cell"] if e is None else None})
     pending.append(("cif_load", impl, None))
@@ -1189,7 +1292,7 @@ def gen_history(rng):
     """one structure object that is saved, has its cell changed (IN PLACE: row assignment, scalar scaling, element
     assignment, row increment; or replaced by a new array), is saved again, ... Every cell stays lower-triangular
     with a positive diagonal (standard orientation), so that Cartesian output is in the property's domain too."""
-    aj, ck = gen_structure(rng, cellkind=rng.choice(["ortho", "tri+", "tri-", "tri", "ortho2"]), n=rng.randint(1, 6),
+    aj, ck = gen_structure(rng, cellkind=rng.choice(["ortho", "tri+", "tri-", "tri", "ortho2", "near90"]), n=rng.randint(1, 6),
                            placement=rng.choice(["inside", "inside", "mixed", "outside"]))
     d8 = lambda lo, hi: Fraction(rng.randint(int(lo * 8), int(hi * 8)), 8)
     steps = []
@@ -1277,6 +1380,7 @@ def check_case(ctx, inp, ops, pending, oracle_only=False):
     elif op == "handwritten":
         ctx.count("hand:" + inp["kind"])
         ctx.count("hand-numbers:" + inp.get("style", "plain"))
+        ctx.count("hand-cell:" + inp.get("cell", "?"))
         if "_atom_site_charge" in inp["text"]:
             ctx.count("hand:charge-column")
         bad, bj = oracle_handwritten(inp)
